@@ -624,3 +624,63 @@ func checkAddrV2Spec(id uint64, alen int, c rw.Ctx) (fs []finding, desc string) 
 func netAddrV2Fields() []rw.F {
 	return rw.ByCmd("addrv2").Fields[0].Sub
 }
+
+// checkFramingV2: the BIP324 plaintext codec WriteV2MessageN / ReadV2MessageN.
+func checkFramingV2(vc *valCase, c rw.Ctx) (fs []finding) {
+	bad := func(kind, format string, a ...interface{}) {
+		fs = append(fs, finding{kind, fmt.Sprintf(format, a...)})
+	}
+	defer func() {
+		if p := recover(); p != nil {
+			bad("panic-framing-v2", "panic: %v", p)
+		}
+	}()
+	m := rw.ByCmd(vc.cmd)
+	if m.Defined(c.Pver) != rw.Yes || !mustAt(vc, c) {
+		return
+	}
+	payload := rw.EncodeBytes(m.Fields, vc.v, c)
+	if len(payload) > 4000000 {
+		return
+	}
+	want := rw.FrameV2(vc.cmd, payload)
+	w := toWire(vc.cmd, vc.v)
+	var buf bytes.Buffer
+	n, err := wire.WriteV2MessageN(&buf, w, c.Pver, wireEnc(c))
+	if err != nil {
+		bad("write-error", "WriteV2MessageN refused a %d byte %q payload: %v", len(payload), vc.cmd, err)
+		return
+	}
+	if n != len(want) || !bytes.Equal(buf.Bytes(), want) {
+		bad("frame-bytes", "n=%d want %d; %s", n, len(want), firstDiff(buf.Bytes(), want))
+		return
+	}
+	if c.Witness && zeroInputTx(vc.cmd, vc.v) {
+		return
+	}
+	in := make([]byte, len(want)) // exact capacity: reading past the end must not go unnoticed
+	copy(in, want)
+	msg, pl, err := wire.ReadV2MessageN(in[:len(in):len(in)], c.Pver, wireEnc(c))
+	if err == wire.ErrUnknownMessage {
+		bad("read-unknown-command", "ReadV2MessageN does not know the command of the plaintext WriteV2MessageN produced for %q: %v", vc.cmd, err)
+		return
+	}
+	if err != nil {
+		bad("read-error", "ReadV2MessageN rejected the plaintext WriteV2MessageN produced for %q: %v", vc.cmd, err)
+		return
+	}
+	if !bytes.Equal(pl, payload) {
+		bad("read-payload", "returned payload (%d bytes) is not the payload (%d bytes): %s", len(pl), len(payload), firstDiff(pl, payload))
+	}
+	if msg.Command() != vc.cmd {
+		bad("read-command", "%q want %q", msg.Command(), vc.cmd)
+		return
+	}
+	got, ferr := fromWire(msg)
+	if ferr != nil {
+		bad("read-value", "%v", ferr)
+	} else if diff := rw.EqualOnWire(m.Fields, vc.v, got, c); diff != "" {
+		bad("read-value", "value differs at %s", diff)
+	}
+	return
+}
